@@ -344,10 +344,22 @@ pub fn followup_case(seed: u64, l: &mut Local) {
             }
             1 => {
                 m.answers.push(s.srv());
+                // one delivery in three: a second SRV record for the instance (another port, same target, neither
+                // with the cache-flush bit), as a service that moved ports leaves behind
+                let two = util::mix(seed, 0x2B) % 3 == 0;
+                if two {
+                    m.answers[0].class &= !wire::FLUSH;
+                    let mut second = s.srv();
+                    second.class &= !wire::FLUSH;
+                    if let wire::RData::Srv { port, .. } = &mut second.rdata {
+                        *port += 1;
+                    }
+                    m.answers.push(second);
+                }
                 if rng.chance(2, 3) {
                     m.answers.push(s.txt());
                 }
-                desc.push_str(&format!(" @{t}:srv"));
+                desc.push_str(&format!(" @{t}:srv{}", if two { "-twice" } else { "" }));
             }
             _ => {
                 w.browse(h, "_t._udp.local.");
@@ -377,6 +389,20 @@ pub fn followup_case(seed: u64, l: &mut Local) {
     }
     if let Some(p) = rounds.windows(2).find(|p| p[1] - p[0] + sl + 1 < 500) {
         l.violate(Violation::new("B4", "B4/follow-ups-closer-than-half-a-second", format!("follow-up rounds {} ms apart (at {:?} ms)", p[1] - p[0], rounds)).with(wit()));
+        return;
+    }
+    // within a round each question leaves once on each interface and family
+    let mut seen: std::collections::HashSet<(u64, Option<u32>, bool, String, u16)> = std::collections::HashSet::new();
+    for tx in txs.iter().filter(|tx| tx.msg.is_query()) {
+        for q in tx.msg.questions.iter().filter(|q| about(q)) {
+            if !seen.insert((tx.t, tx.out_if, tx.v4, wire::dotted(&q.name).to_lowercase(), q.qtype)) {
+                l.violate(
+                    Violation::new("B4", "B4/same-follow-up-question-twice-in-one-round", format!("the question {} type {} left twice at +{} ms on interface {:?} over {}", wire::dotted(&q.name), q.qtype, tx.t - t0, tx.out_if, if tx.v4 { "IPv4" } else { "IPv6" }))
+                        .with(wit()),
+                );
+                return;
+            }
+        }
     }
 }
 
